@@ -84,7 +84,7 @@ class Coalesce(Evaluatable[A]):
         """The keys a member depends on that are present in the options."""
         try:
             explained = member.explain(options)
-        except EvaluationError:
+        except Exception:  # explain is best effort here
             return set()
         return {key for key in explained if dotted_key_exists(key, options)}
 
